@@ -259,10 +259,15 @@ def _check_geometry(self, m, h, est, formed, ts, df, pred, info):
   if not isinstance(L, np.ndarray) or L.ndim != 2 or not np.isfinite(L).all() or np.iscomplexobj(L):
     return
   F = np.asarray(formed, dtype=float)
+  exact_int = np.asarray(formed).dtype.kind in "iu"
   nL2 = float(np.linalg.norm(L, 2)) ** 2
   cmp_pairs = [(0, 1)] if ts == 2 else ([(0, 1), (0, 2)] if ts == 3 else [(0, 1), (2, 3)])
   for i, j in cmp_pairs:
     v = F[:, j] - F[:, i]
+    if exact_int:
+      # whole-number coordinates: the difference is formed exactly in integer arithmetic
+      Fi = np.asarray(formed).astype(np.int64)
+      v = (Fi[:, j] - Fi[:, i]).astype(float)
     ref2 = ((v.dot(L.T)) ** 2).sum(axis=1)
     got = np.asarray(est.pair_distance(np.asarray(formed)[:, [i, j]]), dtype=float)   # in the caller's dtype
     tol = 1e-9 * ref2 + 1e-10 * nL2 * (v ** 2).sum(axis=1) + 1e-300
@@ -277,6 +282,8 @@ def _check_geometry(self, m, h, est, formed, ts, df, pred, info):
     m.cov["far_offset_probes"] += 1
   if info and info.get("f32"):
     m.cov["float32_probes"] += 1
+  if info and info.get("int64_far"):
+    m.cov["int64_beyond_2p53_probes"] += 1
   if not info or not info.get("ties"):
     return
   rows = [r_ for r_ in info["ties"] if r_ < len(F)]
